@@ -36,7 +36,16 @@ def tasks(tier, seed):
                        fuc=['segno.writers.write_png', 'segno.writers.write_pbm', 'segno.writers.write_pam', 'segno.writers.write_ppm',
                             'segno.writers.write_xbm', 'segno.writers.write_xpm', 'segno.writers.write_txt', 'segno.writers.write_terminal',
                             'segno.writers.write_terminal_compact', 'segno.writers._make_colormap', 'segno.writers.colorful'], weight=30))
+    ts += _kernel_tasks()
+    # the iteration kernel every raster / text writer draws its rows from (proved in C11 for any size, scale and border) is a dependency of C09
+    from . import c11
+    ts += [t for t in c11.tasks(tier, seed) if t.func == 'task_iter_kernel']
     return ts
+
+
+def _kernel_tasks():
+    return [Task('pbm_pack_row[%d..%d]' % (a, b), MOD, 'task_pbm_pack_row', (a, b), fuc=['segno.writers.write_pbm.pack_row'], weight=5)
+            for a, b in ((1, 24), (25, 48), (49, 72))]
 
 
 def symbols(rnd):
@@ -336,4 +345,44 @@ def task_size_arithmetic(I):
             I.oblige('C09.size.default_border_4_for_qr_2_for_micro', border == wb)
             I.oblige('C09.size.width_is_size_plus_two_borders_times_scale', s_and(width == (w + 2 * wb) * sc, height == (w + 2 * wb) * sc))
         I.replay_spec = None
+        I.explore(thunk, post)
+
+
+# ------------------------------------------------------------------ P4 row packing kernel (all bit patterns of rows of 1..72 pixels)
+def task_pbm_pack_row(I, lo, hi):
+    """write_pbm.pack_row (the nested helper, extracted from the real source) packs a row of n pixels into ceil(n / 8) bytes, most significant
+    bit first, the last byte padded with zero bits: proved for EVERY bit pattern (symbolic pixels) of every row length lo..hi"""
+    from pyvc import extract
+    from pyvc.interp import Frame
+    from pyvc.sym import s_and
+    mi = extract.get_module('segno.writers')
+    node = mi.by_qualname.get('write_pbm.<locals>.pack_row')
+    if node is None:
+        from pyvc.sym import Unsupported
+        raise Unsupported('contract does not attach: write_pbm has no nested helper pack_row')
+    for n in range(lo, hi + 1):
+        st = {}
+
+        def thunk(I):
+            parent = Frame(None, mi.module.__dict__, 'write_pbm', 'segno.writers')
+            I.extracted_roots.add(id(parent))
+            st['frame'] = parent
+            f = I.make_closure(node, parent, 'write_pbm.<locals>.pack_row')
+            bits = [I.fresh_int('px%d' % k, 0, 1) for k in range(n)]
+            st['bits'] = bits
+            return I.iterate(I.call_function(f, (tuple(bits),), {}))
+
+        def post(I, kind, val):
+            if kind != 'return':
+                I.oblige('C09.pbm.pack_row.no_exception', False, note=repr(val))
+                return
+            bits = st['bits']
+            I.ground('C09.pbm.pack_row.number_of_bytes_is_ceil_n_over_8', len(val) == (n + 7) // 8, witness=dict(n=n, got=len(val)))
+            for k, byte in enumerate(val[:(n + 7) // 8]):
+                want = 0
+                for t in range(8):
+                    p = 8 * k + t
+                    want = want * 2 + (bits[p] if p < n else 0)
+                I.oblige('C09.pbm.pack_row.byte_is_eight_pixels_msb_first_zero_padded', byte == want)
+        I.replay_spec = dict(fn='replay_raster_kind', kind='pbm')
         I.explore(thunk, post)
